@@ -4,7 +4,8 @@ package main
 //
 // Statement-level, syntax-directed translation (go/ast) of
 //   bounds.go   (*Bounds).Empty, (*Bounds).Overlaps, NewBoundsPoint;  point.go  Point.Bounds
-//   encoding/osm/extract.go  hasTag, hasNeedNode/Way/Relation, processNode/Way/RelationNoCopy, Filter
+//   encoding/osm/extract.go  hasTag, hasNeedNode/Way/Relation, processNode/Way/RelationNoCopy, Filter,
+//                            processNode/Way/Relation (their calls of copyNode/Way/Relation are GenLib vocabulary)
 //   encoding/osm/keep.go     KeepTags, KeepBounds, KeepAll
 //   encoding/osm/check.go    Check
 // into the vocabulary of lean/GeomV/C18/GenLib.lean (Ctl monad over the tuple of assigned variables, rangeS,
@@ -921,6 +922,9 @@ func t1Main(args []string) {
 		{"encoding/osm/extract.go", "Data", "processWayNoCopy", "processWayNoCopy"},
 		{"encoding/osm/extract.go", "Data", "processRelationNoCopy", "processRelationNoCopy"},
 		{"encoding/osm/extract.go", "Data", "Filter", "Filter"},
+		{"encoding/osm/extract.go", "Data", "processNode", "processNode"},
+		{"encoding/osm/extract.go", "Data", "processWay", "processWay"},
+		{"encoding/osm/extract.go", "Data", "processRelation", "processRelation"},
 		{"encoding/osm/check.go", "Data", "Check", "Check"},
 	}
 	fset := token.NewFileSet()
@@ -929,6 +933,10 @@ func t1Main(args []string) {
 	out.WriteString("import GeomV.C18.GenLib\n/-! REGENERATED by `c18 t1` (harness/cmd/c18/t1.go) from the Go source of the tree under test. Do not edit. -/\n")
 	out.WriteString("set_option linter.unusedVariables false\nnamespace GeomV.C18.Gen\n\n")
 	sigs := map[string]*t1Sig{}
+	// vocabulary of GenLib.lean (not translated: struct literal + make + indexed stores): the three copy functions
+	for _, c := range []string{"copyNode", "copyWay", "copyRelation"} {
+		sigs[c] = &t1Sig{lean: c, nres: 1}
+	}
 	// method-name keyed signatures: `X.Bounds()` on a Point and `b.Empty()`
 	var bad []string
 	for _, it := range items {
